@@ -705,3 +705,58 @@ Proof.
   rewrite Zplus_mod_idemp_r in D2. replace (T + (i - T)) with i in D2 by lia. rewrite (Z.mod_small i (K s)) in D2 by lia.
   apply D2. lia.
 Qed.
+
+(* ================= the statements of Props/Properties_C35.v ================= *)
+Definition spsc_domain (k : Z) (p0 p1 : list op) : Prop :=
+  2 <= k < 2 ^ 63 /\ Forall prod_op p0 /\ Forall cons_op p1.
+
+Lemma spsc_reach_inv k p0 p1 s : spsc_domain k p0 p1 -> reach step (init k p0 p1) s -> Inv s.
+Proof. intros (Kb & F0 & F1) R. eapply spsc_inv; eauto. Qed.
+
+Lemma spsc_exactly_once_in_order k p0 p1 s : spsc_domain k p0 p1 ->
+  reach step (init k p0 p1) s -> pushed s = popped s ++ contents s.
+Proof. intros D R. apply spsc_exactly_once_in_order_inv. eapply spsc_reach_inv; eauto. Qed.
+
+Lemma spsc_bounded k p0 p1 s : spsc_domain k p0 p1 -> reach step (init k p0 p1) s ->
+  zlen (contents s) = occupancy s /\ 0 <= occupancy s <= K s - 1 /\
+  zlen (pushed s) + zlen (wl (tpc (th0 s))) - zlen (popped s) <= K s - 1.
+Proof. intros D R. apply spsc_bounded_inv. eapply spsc_reach_inv; eauto. Qed.
+
+Lemma push_ok_iff_not_full_as_observed k p0 p1 s v ct ch s' ch' site : spsc_domain k p0 p1 ->
+  reach step (init k p0 p1) s -> tpc (th0 s) = PPushLoadHead v ct -> step s 0 ch = Some (s', ch', site) ->
+  (occupancy s = K s - 1 /\ res (th0 s') = (r_pushfail, v) :: res (th0 s)) \/
+  (occupancy s < K s - 1 /\ tpc (th0 s') = PPushWrite v ct).
+Proof. intros D R. apply push_ok_iff_not_full_inv. eapply spsc_reach_inv; eauto. Qed.
+
+Lemma pop_ok_iff_not_empty_as_observed k p0 p1 s c ch s' ch' site : spsc_domain k p0 p1 ->
+  reach step (init k p0 p1) s -> tpc (th1 s) = PPopLoadTail c -> step s 1 ch = Some (s', ch', site) ->
+  (occupancy s = 0 /\ res (th1 s') = (r_popfail, 0) :: res (th1 s)) \/
+  (0 < occupancy s /\ tpc (th1 s') = PPopRead c).
+Proof. intros D R. apply pop_ok_iff_not_empty_inv. eapply spsc_reach_inv; eauto. Qed.
+
+Lemma pushb_avail_as_observed k p0 p1 s vs ct : spsc_domain k p0 p1 ->
+  reach step (init k p0 p1) s -> tpc (th0 s) = PBLoadHead vs ct -> avail_push (K s) ct (head s) = K s - 1 - occupancy s.
+Proof. intros D R. apply pushb_avail_as_observed_inv. eapply spsc_reach_inv; eauto. Qed.
+
+Lemma popb_avail_as_observed k p0 p1 s m c : spsc_domain k p0 p1 ->
+  reach step (init k p0 p1) s -> tpc (th1 s) = PQLoadTail m c -> avail_pop (K s) c (tail s) = occupancy s.
+Proof. intros D R. apply popb_avail_as_observed_inv. eapply spsc_reach_inv; eauto. Qed.
+
+Lemma spsc_lifetimes k p0 p1 s : spsc_domain k p0 p1 -> reach step (init k p0 p1) s ->
+  l_errs (led s) = [] /\
+  (forall p, zlen (popped s) + zlen (rl (tpc (th1 s))) <= p < zlen (pushed s) + zlen (wl (tpc (th0 s))) ->
+             lget (led s) (p mod K s) = Alive) /\
+  (forall p, zlen (pushed s) + zlen (wl (tpc (th0 s))) <= p < zlen (popped s) + zlen (rl (tpc (th1 s))) + K s ->
+             is_live (lget (led s) (p mod K s)) = false).
+Proof. intros D R. apply lifetimes_inv. eapply spsc_reach_inv; eauto. Qed.
+
+Lemma spsc_dtor_balanced k p0 p1 s : spsc_domain k p0 p1 -> reach step (init k p0 p1) s ->
+  rl (tpc (th1 s)) = [] -> wl (tpc (th0 s)) = [] ->
+  l_errs (dtor s) = [] /\ forall i, 0 <= i < K s -> is_live (lget (dtor s) i) = false.
+Proof. intros D R. apply dtor_balanced_inv. eapply spsc_reach_inv; eauto. Qed.
+
+Lemma increment_is_succ_mod k i : 0 < k < 2 ^ 63 -> 0 <= i < k -> increment k i = (i + 1) mod k.
+Proof. intros Hk Hi. apply increment_mod; lia. Qed.
+
+Lemma spsc_run_reach fuel k p0 p1 sched : reach step (init k p0 p1) (fst (fst (run_spsc fuel k p0 p1 sched))).
+Proof. apply run_reach. apply reach_refl. Qed.
